@@ -13,6 +13,8 @@ PYCTR_ERRS = {
     'InvalidRomFSHeaderError': 43, 'InvalidIVFCError': 44,
     'InvalidCCIError': 50, 'InvalidHeaderError': 70, 'InvalidHeaderLengthError': 71, 'NCCHSeedError': 60, 'InvalidNCCHError': 61,
     'InvalidNANDError': 80, 'MissingOTPError': 81,
+    'InvalidConfigSaveError': 90, 'InvalidBlockDataError': 91, 'BlockFlagsNotAllowed': 92, 'OutOfSpaceConfigSaveError': 93, 'ConfigSaveError': 94,
+    'BlockIDNotFoundError': 95,
 }
 
 MODULES = {
@@ -76,11 +78,21 @@ MODULES = {
     'util': dict(file='pyctr/util.py', kernels=[
         dict(py='roundup', coq='roundup', args=[('offset', INT), ('alignment', INT)], ret=INT),
     ]),
+    'common': dict(file='pyctr/common.py', kernels=[
+        dict(py='_ReaderOpenFileBase.seek', coq='ReaderOpenFileBase_seek', args=[('seek', INT), ('whence', INT)], extra_args=[('size', INT)], ret=INT,
+             raises=True, selfattrs={'_seek': INT}, writes=['_seek'], rename={'self._info.size': 'size'}),
+    ]),
+    'ivfcpd': dict(file='pyctr/type/save/partdesc/ivfc.py', kernels=[
+        dict(py='IVFCLevel4Reader.seek', coq='IVFCLevel4Reader_seek', args=[('offset', INT), ('whence', INT)], extra_args=[('size', INT)], ret=INT,
+             raises=True, selfattrs={'_seek': INT}, writes=['_seek'], rename={'self._lv4.size': 'size'}),
+    ]),
     'savecommon': dict(file='pyctr/type/save/partdesc/common.py', imports=['util'], extfuncs={'roundup': ('roundup', [INT, INT], INT, False)}, kernels=[
         dict(py='get_block_range', coq='get_block_range', args=[('offset', INT), ('size', INT), ('block_size', INT)]),
     ]),
     'dpfs': dict(file='pyctr/type/save/partdesc/dpfs.py', kernels=[
         dict(py='DPFSLevelChunkBase.get_active_bit', coq='get_active_bit', args=[('bit', INT)], ret=BOOL, selfattrs={'u32_list': SEQ}),
+        dict(py='DPFSLevel3FileIO.seek', coq='DPFSLevel3FileIO_seek', args=[('offset', INT), ('whence', INT)], extra_args=[('size', INT)], ret=INT,
+             raises=True, selfattrs={'_seek': INT}, writes=['_seek'], rename={'self._lv3.size': 'size'}),
     ]),
     'ncch': dict(file='pyctr/type/ncch.py', kernels=[
         dict(py='NCCHFlags.from_bytes', coq='ncchflags_from_bytes', args=[('flag_bytes', SEQ)]),
